@@ -280,7 +280,9 @@ TermTrigX(st, cur, x, ctx) ==
   \cup (IF Dev_MatchOperatorBytes /\ BadMatch(x, ctx) THEN {"MatchOperatorBytes"} ELSE {})
   \cup (IF Dev_VarPackageCountByte /\ BadVarPkg(x) THEN {"VarPackageCountByte"} ELSE {})
   \cup (IF Dev_RelPathInTerm /\ (RelRef(x, ctx) \/ \E b \in BufLens(x) : RelRef(b, "strict")) THEN {"RelPathInTerm"} ELSE {})
-  \cup UNION { (IF UsesCaretInObjectScope(st.ns, cur, y.f) THEN {"D1"} ELSE {})
+  \* D1 widened: a ^ in a name that is looked up from inside a term never means one namespace level: Find starts at the node that
+  \* holds the name (package element list, operator, invocation ...) and every enclosing NODE counts as a level
+  \cup UNION { (IF UsesCaretInObjectScope(st.ns, cur, y.f) \/ y.f.carets > 0 THEN {"D1"} ELSE {})
                \cup (IF PathThroughObject(st.ns, cur, y.f, y.f.segs) THEN {"D2c"} ELSE {}) : y \in LookedUp(x, ctx) }
 
 \* triggers that need the FINAL namespace (checked at the end of the table): what a name designates
